@@ -159,7 +159,8 @@ def Message.sim (a b : Message) : Prop :=
 
 theorem base_out (m : Message) (L a b : Nat) (r : RState) (h : m.base L a b = .ok r) :
     r.out = List.replicate 12 0 ∧ r.tbl = [] ∧ r.origin = m.origin := by
-  unfold Message.base at h
+  have h := base_ok h
+  unfold Message.base0 at h
   split at h
   · simp at h
   · rename_i r1 h1
